@@ -357,11 +357,20 @@ func (w *World) nilStatus(fn *ssa.Function, i int, seen map[string]bool) int {
 		if ei < 0 || ei >= len(r.Results) {
 			return false
 		}
+		whole := strip(r.Results[ei])
+		if w.requires(fn, r, func(a Atom) bool { return a.Kind == "nil" && strip(a.X) == whole }, false) {
+			return true // the returned error value itself was tested non-nil on the way here
+		}
 		for _, e := range phiLeaves(r.Results[ei]) {
 			if w.isFreshError(e) {
 				continue
 			}
 			if kc, idx := callOfResult(e); kc != nil && idx == errIndex(kc) && w.requires(fn, r, errNil(kc), false) {
+				continue
+			}
+			// any error value tested non-nil on the way to this return (e.g. the joined result of an inlined helper)
+			ev := strip(e)
+			if w.requires(fn, r, func(a Atom) bool { return a.Kind == "nil" && strip(a.X) == ev }, false) {
 				continue
 			}
 			if !isNilConst(e) {
